@@ -456,6 +456,27 @@ fn limited_writers(ctx: &mut Ctx) {
             limit += step;
         }
         let _ = std::fs::remove_file(&file);
+        // The same writer onto a device that accepts the open and refuses every write (ENOSPC), with no size limit.
+        if std::path::Path::new("/dev/full").exists() {
+            points += 1;
+            ctx.checks += 1;
+            let out = std::process::Command::new(&exe)
+                .args(["c14child", &format!("kind={}", kind), &format!("width={}", width), &format!("buf={}", buf), &format!("count={}", count), "limit=1000000000", "file=/dev/full"])
+                .output();
+            match out {
+                Err(e) => ctx.inconclusive(format!("could not spawn the writer child: {}", e)),
+                Ok(o) => {
+                    let text = String::from_utf8_lossy(&o.stdout).to_string();
+                    let outcome = text.lines().find(|l| l.starts_with("OUTCOME ")).map(|l| l[8..].to_string()).unwrap_or_else(|| format!("no_outcome(status {:?})", o.status.code()));
+                    *outcomes.entry(format!("dev_full.{}", outcome)).or_insert(0) += 1;
+                    match outcome.as_str() {
+                        "ctor_err" | "push_panic" | "close_err" => {},
+                        "close_ok" | "push_panic_then_close_ok" | "close_err_then_close_ok" => ctx.violation(&format!("writer.dev_full.reported_success.{}", kind), format!("{} writer width {} buf {} pushes {} onto /dev/full (no byte can be written): {}", kind, width, buf, count, outcome)),
+                        _ => ctx.inconclusive(format!("{} writer onto /dev/full: child gave {}", kind, outcome)),
+                    }
+                },
+            }
+        }
         ctx.case(hash64(&[5, ci as u64, size as u64]), true);
         ctx.sample(|| format!("writers: {} writer width={} buf={} pushes={} complete file {} bytes: one child process per RLIMIT_FSIZE in 0..={} step {}", kind, width, buf, count, size, size + 8, step));
     }
